@@ -86,6 +86,7 @@ type scheduler struct {
 	wg         sync.WaitGroup
 	shared     map[*value]string
 	access     map[any]*accessRec
+	wrec       map[*value]epoch // last plain store to each heap cell while several threads exist
 	mvc        map[*value]*mutexVC
 	chvc       map[*schan]vclock
 	wgvc       map[*value]vclock
@@ -104,6 +105,7 @@ func (s *scheduler) reset() {
 	s.failSite = ""
 	s.shared = map[*value]string{}
 	s.access = map[any]*accessRec{}
+	s.wrec = map[*value]epoch{}
 	s.mvc = map[*value]*mutexVC{}
 	s.chvc = map[*schan]vclock{}
 	s.wgvc = map[*value]vclock{}
@@ -423,6 +425,43 @@ func (s *scheduler) accessCheckAt(i *interpreter, obj any, write bool, what, her
 		rec.reads = map[int]epoch{}
 	} else {
 		rec.reads[t.id] = epoch{tid: t.id, clk: t.vc.at(t.id), fn: here}
+	}
+}
+
+// heapStore / heapLoad: happens-before check on ORDINARY heap cells (not registered with
+// symx.Shared, not schedule points). A cell stored to by two threads, or stored by one and loaded
+// by another, without a happens-before edge between the accesses is a data race whatever the
+// interleaving: one explored schedule in which both accesses occur suffices to see it. Loads
+// are only checked against earlier stores (a load that precedes the conflicting store in every
+// explored schedule is not seen).
+func (s *scheduler) heapStore(i *interpreter, a *value) {
+	if !s.enabled || len(s.threads) < 2 || i.path == nil {
+		return
+	}
+	t := s.cur
+	if e, ok := s.wrec[a]; ok && e.tid != t.id && e.clk > t.vc.at(e.tid) {
+		here := i.curFnName()
+		key := "heap write/write in " + e.fn + " || " + here
+		if !s.races[key] {
+			s.races[key] = true
+			i.raceFound("a heap cell that is not protected by any synchronisation", "write/write", e.fn, here)
+		}
+	}
+	s.wrec[a] = epoch{tid: t.id, clk: t.vc.at(t.id), fn: i.curFnName()}
+}
+
+func (s *scheduler) heapLoad(i *interpreter, a *value) {
+	if !s.enabled || len(s.threads) < 2 || i.path == nil || len(s.wrec) == 0 {
+		return
+	}
+	t := s.cur
+	if e, ok := s.wrec[a]; ok && e.tid != t.id && e.clk > t.vc.at(e.tid) {
+		here := i.curFnName()
+		key := "heap write/read in " + e.fn + " || " + here
+		if !s.races[key] {
+			s.races[key] = true
+			i.raceFound("a heap cell that is not protected by any synchronisation", "write/read", e.fn, here)
+		}
 	}
 }
 
